@@ -365,7 +365,7 @@ impl Property for C12 {
         ]
     }
     fn cases(tier: Tier) -> u64 {
-        tier.pick(20_000, 400_000)
+        tier.pick(160_000, 400_000)
     }
     fn strategy(_tier: Tier) -> BoxedStrategy<Spec> {
         prop_oneof![
